@@ -66,6 +66,7 @@ class Analysis:
         self.expected = None       # expected id sequence when applied (with the resolved sources)
         self.named = set()         # ids named or carried (excluded from the frame)
         self.carried = {}          # id -> canon payload expected in B
+        self.carried_at = []       # [(index in the expected sequence, canon)]
         self.moved = []            # ids whose element must survive with identical content
         self.noop_if_all_unresolved = True
 
@@ -130,20 +131,27 @@ def analyse(op, seq, level, carried_nodes):
         if any(i in seq for i in cids) or len(set(cids)) < len(cids):
             an.dup_or_apply = True
         an.expected = list(seq) + cids
+        an.carried_at = [(len(seq) + k, c) for k, c in enumerate(carried)]
     elif kind == 'insert':
         tg = resolve_target(blank_means_end=True)
         new = []
+        newc = []
         for c, i in zip(carried, cids):
             an.named.add(i)
-            if level == 'story' and (i in seq or i in new):
+            if level == 'story' and i in seq:
                 an.dups.append(i)
+            elif level == 'story' and i in new:
+                an.dup_or_apply = True      # the message repeats an id: inserting or skipping the repeat is accepted
             else:
                 if i in seq or i in new:
                     an.dup_or_apply = True
                 new.append(i)
+                newc.append(c)
                 an.carried[i] = c
         if tg[0] != 'missing':
             an.expected = seq_insert(seq, tg[1] if tg[0] == 'id' else None, new)
+            start = seq.index(tg[1]) if tg[0] == 'id' else len(seq)
+            an.carried_at = [(start + k, c) for k, c in enumerate(newc)]
     elif kind == 'replace':
         tg = resolve_target(blank_means_end=False)
         for c, i in zip(carried, cids):
@@ -155,12 +163,14 @@ def analyse(op, seq, level, carried_nodes):
                 an.dup_or_apply = True
             i = seq.index(tg[1])
             an.expected = list(seq[:i]) + cids + list(seq[i + 1:])
+            an.carried_at = [(i + k, c) for k, c in enumerate(carried)]
     elif kind == 'send':
         sid = cids[0]
         an.named.add(sid)
         an.carried[sid] = carried[0]
         if sid in seq:
             an.expected = list(seq)
+            an.carried_at = [(seq.index(sid), carried[0])]
         else:
             an.anchor_missing.append((SNF, 'unknown story'))
     elif kind == 'move':
@@ -363,10 +373,10 @@ def _judge_seq(va, vb, op, out, level, mosw, add, prop_order, prop_cons):
         return
 
     # ---- payload (C04) and content of moved elements (C03) -----------------------------
-    for i, c in an.carried.items():
-        got_el = byB.get(i)
+    for k, c in an.carried_at:
+        got_el = listB[k] if k < len(listB) else None
         if got_el is None or notail(got_el) != notail(c):
-            add('C04.payload', '%s: carried %s %r does not arrive intact' % (t, level, i))
+            add('C04.payload', '%s: carried %s %r does not arrive intact' % (t, level, (_sid(c) if level == 'story' else _iid(c))))
     for i in an.moved:
         if i in byA and i in byB and notail(byA[i]) != notail(byB[i]):
             add('C03.frame', '%s altered the content of moved %s %r' % (t, level, i))
